@@ -64,6 +64,7 @@ pub struct L1State {
     /// lagging read-only instances (C13): own cached storage manager over the shared database
     pub readers: BTreeMap<u64, Reader>,
     pub thorough: bool,
+    pub sched_traces: Vec<String>,
     pub restart_permille: u64,
     /// C14: serve read operations through `ReadOnlyDirectory`
     pub readonly: bool,
@@ -88,6 +89,7 @@ impl Default for L1State {
             perm_roots: vec![],
             readers: BTreeMap::new(),
             thorough: false,
+            sched_traces: vec![],
             restart_permille: 0,
             readonly: false,
             rng: crate::rng::Rng::new(7),
